@@ -323,7 +323,11 @@ def engine : Engine DState where
           | some run =>
             let (model, run') := match run.phase with
               | .ended _ => ("none", run)
-              | .reconnecting _ _ lastID _ _ =>
+              | .reconnecting _ _ lastID hint attempt =>
+                -- the model's retry hint / attempt number must give the delay window the monitor derived
+                -- from the ground truth (this is what ties `noteEvent`/`parseInt64` to the measured delays)
+                let mAttempt := trailingTerr d + 1
+                let agree := delayWindow hint attempt == delayWindow (if mAttempt = 1 then lastHint d else 0) mAttempt
                 let att : Attempt := match a with
                   | .terr => .terr
                   | .st c => .resp c (fun _ => ⟨[], .clean⟩)
@@ -331,7 +335,7 @@ def engine : Engine DState where
                     match scanOf with
                     | some so => .resp 200 (fun _ => so)
                     | none => .resp 400 (fun _ => ⟨[], .clean⟩)    -- the scripted server refuses an unknown Last-Event-ID
-                (showHdr lastID, step d.cfg run att)
+                (showHdr lastID ++ (if agree then "" else s!" model-delay-window({hint},{attempt})"), step d.cfg run att)
             let lost := d.cursorLost || (impl == "lei=-" && d.cursor != [])
             let wrong := d.wrongCursor || (impl != "lei=-" && impl != showHdr d.cursor)
             some ({ d with run := some run', exch := d.exch ++ [ex], cursorLost := lost, wrongCursor := wrong }, { model := model, violated := viol })
